@@ -224,3 +224,40 @@ func VH_C13_three() {
 	vAssert(okAny, "some-sequential-order-explains-all-results")
 	vCover("three")
 }
+
+// three goroutines, one symbolic operation each (all 9^3 kind combinations, symbolic keys/values)
+func VH_C13_three3() {
+	vUnwind(12)
+	s := NewSharedStore()
+	pre := c13Ref{}
+	if vNondet[bool]("preA") {
+		s.Set("a", 1)
+		pre.hasA, pre.valA = true, 1
+	}
+	ops := [3]*c13Op{c13NewOp("op1"), c13NewOp("op2"), c13NewOp("op3")}
+	done := 0
+	for _, o := range ops {
+		o := o
+		go func() {
+			c13Run(s, o)
+			vMonC(1, func() { done++ })
+		}()
+	}
+	vBlockUntil(func() bool { return done == 3 })
+	okAny := false
+	perms := [6][3]int{{0, 1, 2}, {0, 2, 1}, {1, 0, 2}, {1, 2, 0}, {2, 0, 1}, {2, 1, 0}}
+	for _, p := range perms {
+		r := pre
+		ok := true
+		for _, i := range p {
+			if !r.apply(ops[i]) {
+				ok = false
+			}
+		}
+		if ok && r.sameState(s) {
+			okAny = true
+		}
+	}
+	vAssert(okAny, "some-sequential-order-explains-all-results")
+	vCover("three3")
+}
